@@ -18,6 +18,14 @@ def stub(name):
     return deco
 
 
+class _U8T:
+    bits = 8
+    k = 'basic'
+
+
+_U8 = _U8T()
+
+
 def _key(st, name):
     n = st.counts.get(name, 0)
     st.counts[name] = n + 1
@@ -88,7 +96,7 @@ def vp_bytes(ex, st, fr, ins, args):
         v = z3.BitVec(k, 8)
         st.nondet[k] = ('int', 8, v)
         slots.append(v)
-    oid = ex.new_obj(st, slots, 'vp.Bytes ' + name)
+    oid = ex.new_obj(st, slots, 'vp.Bytes ' + name, [_U8])
     return Slice(oid, 0, n, n, 1)
 
 
